@@ -3,6 +3,8 @@
 package main
 
 import (
+	"bytes"
+	"runtime"
 	"encoding/json"
 	"fmt"
 	"os"
@@ -22,6 +24,12 @@ import (
 // os/exec answered by a stub. The simulator is off, so the verifsim primitives
 // are the real sync ones. Uncontrolled; a race report ends the process with
 // exit code 66 (GORACE).
+func quiesce(baseline int) {
+	for i := 0; i < 500 && runtime.NumGoroutine() > baseline; i++ {
+		time.Sleep(time.Millisecond)
+	}
+}
+
 func raceSave() {
 	quiet()
 	runs, _ := strconv.Atoi(os.Getenv("C20_RUNS"))
@@ -33,7 +41,30 @@ func raceSave() {
 	exitErr := exec.Command("/bin/sh", "-c", "exit 2").Run()
 	var mu sync.Mutex
 	done := 0
-	for i := 0; i < runs; i++ {
+	// one batch per process: the cache under test is a package-level variable,
+	// and a tree may leave probe goroutines behind that still write to it after
+	// saveOutputs has returned - resetting it for a second batch in the same
+	// process would be a race of the harness with those goroutines
+	if os.Getenv("C20_ONE") == "" {
+		for i := 0; i < runs; i++ {
+			cmd := exec.Command(os.Args[0])
+			cmd.Env = append(os.Environ(), fmt.Sprintf("C20_ONE=%d", i))
+			var se bytes.Buffer
+			cmd.Stderr = &se
+			if err := cmd.Run(); err != nil {
+				os.Stderr.Write(se.Bytes())
+				if ee, ok := err.(*exec.ExitError); ok {
+					os.Exit(ee.ExitCode())
+				}
+				os.Exit(2)
+			}
+		}
+		json.NewEncoder(kernel.Out).Encode(map[string]any{"runs": runs})
+		return
+	}
+	first, _ := strconv.Atoi(os.Getenv("C20_ONE"))
+	baseline := runtime.NumGoroutine()
+	for i := first; i < first+1; i++ {
 		r := kernel.NewRand(kernel.Mix(seed, "C20-racesave", i))
 		// (no failing run here: saveOutputs reports one by panicking in its
 		// goroutine, which would end this free-running process)
@@ -69,5 +100,5 @@ func raceSave() {
 		os.RemoveAll(dir)
 		done++
 	}
-	json.NewEncoder(kernel.Out).Encode(map[string]any{"runs": done})
+	quiesce(baseline) // let background goroutines finish under the race detector's eyes
 }
